@@ -99,6 +99,11 @@ def run(tier):
     tcases = [{'ebnf': to_ebnf(it['g']), 'g': it['g'], 'cfg': make_cfg(chars_of(it['g'], it['texts']), **(it.get('cfg') or {})),
                'texts': [''.join(t) for t in it['texts'] if len(t) <= 4][:30], 'settings': it.get('settings')} for it in items[ck.seed % step::step]]
     trace_validate(ck, tcases, label='C05 cut placements')
+    # TLC on the implementation-shaped machine: CutContained (only the top frame, or the option frame under an isolate frame, ever
+    # changes its cut flag), FramesBalanced and Refines under every memo schedule, with pruning on cut on and off
+    from ..pegcheck import machine_check
+    mstep = 3 if tier == 'quick' else 1
+    machine_check(ck, items[ck.seed % mstep::mstep], 'C05 cut placements', maxlen=3 if tier == 'quick' else 4, maxtexts=40 if tier == 'quick' else 200)
     ck.cov['rule'] = (f'{len(items)} grammars = 18 skeletons (choice, choice in group, optional, closure, positive closure, nested '
                       'closure, join, positive join, gather, rule body, rule called from choice/closure, choices in closure/optional) '
                       'with a cut inserted at every position of every sequence (and the cut-free skeleton) x all texts over {a,b,c} '
